@@ -1322,6 +1322,23 @@ def rule_r8(chk, p, t):
             r.violation(ae.qualname, f"apply:{[unparse(a) for a in adds]}", "a fired impulse is not added to the state exactly once", ae.loc())
 
     r.guard(ae.qualname, f2)
+
+    def f2b():
+        # simultaneous events: solve_ivp keeps only the first terminal event of a stop (scipy's handle_events cuts
+        # the active list after the first terminal root), so an event reported by the integrator cannot be the
+        # only trigger of an application
+        cfg = cfg_of(ae)
+        adds = [n for n in cfg.nodes if n.kind == "stmt" and isinstance(n.ast, ast.AugAssign) and "getStateChange(" in unparse(n.ast.value)]
+        require(len(adds) == 1, "one impulse application expected", ae.node)
+        fired = [n for n in cfg.nodes if n.kind == "cond" and "t_events[" in unparse(n.ast) and ".size" in unparse(n.ast)]
+        require(fired, "no test of the integrator's reported event times", ae.node)
+        cons = ae.qualname + ":simultaneous"
+        if cfg.must_pass(adds[0].id, via_edges=[(fired[0].id, True)]):
+            r.violation(cons, "simultaneous-events-dropped", "an impulse is applied only when the integrator reports its own event time (`t_events[i].size > 0`); solve_ivp reports only the first of several terminal events at one instant, so of two impulses scheduled for the same time one is never applied (nor re-detected after the restart, its event value is already positive)", ae.loc(fired[0].ast))
+        else:
+            r.ok(cons, "an event that is due at the stop time is applied even when the integrator did not report it", ae.loc())
+
+    r.guard(ae.qualname + ":simultaneous", f2b)
     ev = p.cls("resonaate.data.events.scheduled_impulse.ScheduledImpulseEvent")
     he = ev.methods.get("handleEvent")
 
